@@ -58,7 +58,7 @@ pub struct RObs {
     pub token_bal: BTreeMap<String, u128>,
     pub supply: u128,
     pub bank: u128,
-    pub accrued_query: BTreeMap<String, u128>,
+    pub accrued_query: BTreeMap<String, Result<u128, String>>,
 }
 
 pub fn all_holders(c: &Chain) -> BTreeMap<String, HolderResponse> {
@@ -107,8 +107,8 @@ impl RObs {
         }
         let mut accrued_query = BTreeMap::new();
         for a in holders.keys() {
-            let r: basset::reward::AccruedRewardsResponse = c.query(REWARD, &RQ::AccruedRewards { address: a.clone() }).expect("accrued rewards");
-            accrued_query.insert(a.clone(), r.rewards.u128());
+            let r: Result<basset::reward::AccruedRewardsResponse, String> = c.query(REWARD, &RQ::AccruedRewards { address: a.clone() });
+            accrued_query.insert(a.clone(), r.map(|x| x.rewards.u128()));
         }
         RObs { state: c.query(REWARD, &RQ::State {}).expect("reward state"), holders, token_bal, supply: token_supply(c, BSEI), bank: c.bal(REWARD, KUSD), accrued_query }
     }
@@ -418,8 +418,10 @@ fn c16_state(o: &RObs, cx: &mut Cx) {
 fn c14_state(o: &RObs, g: &G, cx: &mut Cx) {
     for (a, q) in &o.accrued_query {
         let exact = cosmwasm_std::Uint128::try_from(o.accrued_fp(a) / one256()).map(|x| x.u128()).unwrap_or(u128::MAX);
-        if *q != exact {
-            cx.viol("C14.accrued_query", "AccruedRewards query differs from the whole-unit part of the holder's accrued reward", format!("{}: query {} exact {}", a, q, exact));
+        match q {
+            Ok(q) if *q == exact => {}
+            Ok(q) => cx.viol("C14.accrued_query", "AccruedRewards query differs from the whole-unit part of the holder's accrued reward", format!("{}: query {} exact {}", a, q, exact)),
+            Err(e) => cx.viol("C14.accrued_query", "AccruedRewards query fails", format!("{}: {}", a, e)),
         }
     }
     let total = o.total_accrued_fp();
